@@ -63,6 +63,19 @@ class Cls:
             return None if v is None else (v == "True")
         return self.parent.omit_none if self.parent else None
 
+    @property
+    def omit_default(self):
+        if self.own_config:
+            v = self.extra.get("omit_default")
+            return None if v is None else (v == "True")
+        return self.parent.omit_default if self.parent else None
+
+    def cfg_flag(self, name) -> bool:
+        """effective boolean Config option (nearest Config in the MRO; BaseConfig default False)"""
+        if self.own_config:
+            return self.extra.get(name) == "True"
+        return self.parent.cfg_flag(name) if self.parent else False
+
     def ancestors(self):
         c = self.parent
         while c is not None:
@@ -80,6 +93,8 @@ class Scenario:
         self.roots: list = []           # root types; wrapper W<i> has the field f: roots[i]
         self.dialect = None             # None | True | False | "unset" | "strategy" (what the dialect Dl sets)
         self.dialect_omit = None        # omit_none of the dialect Dl (None = not set)
+        self.dialect_omit_default = None  # omit_default of the dialect Dl (None = not set)
+        self.kw_only = False            # @dataclass(kw_only=True): fields with defaults anywhere
         self.lazy = False               # classes use Config.lazy_compilation (values stay exact-class)
         self.wide = False               # Config options outside the Coq model (oracles only, no correspondence)
         self.module = None
@@ -202,8 +217,10 @@ def gen_scenario(rng, sid, dialect_p=0.3, wide=False) -> Scenario:
         sc.dialect = rng.choice([True, False, "unset"]) if not wide else rng.choice(["unset", "strategy"])
         if not wide:
             sc.dialect_omit = rng.choice([None, None, True, False])
+            sc.dialect_omit_default = rng.choice([None, None, True, False])
     sc.lazy = rng.random() < (0.5 if wide else 0.3)
     sc.flags = [f for f in WIDE_FLAGS if rng.random() < 0.3] if wide else []
+    sc.kw_only = wide or rng.random() < 0.5
     sc.multi = rng.random() < 0.4
     sc.pep563 = rng.random() < 0.3
     n = rng.randint(2, 6)
@@ -244,11 +261,17 @@ def gen_scenario(rng, sid, dialect_p=0.3, wide=False) -> Scenario:
             extra["allow_postponed_evaluation"] = "False"
         if not wide and rng.random() < 0.3:
             extra["omit_none"] = rng.choice(["True", "True", "False"])       # in the Coq model (c_omit_none)
+        if not wide:
+            for o in ("sort_keys", "forbid_extra_keys", "allow_deserialization_not_by_alias", "omit_default"):   # in the Coq model too
+                if rng.random() < 0.25:
+                    extra[o] = rng.choice(["True", "True", "False"])
         defaults = {}
         if wide:
             for o in WIDE_OPTS:
                 if rng.random() < 0.3:
                     extra[o] = rng.choice(["True", "True", "False"])
+        if sc.kw_only:
+            # literal defaults (int / str / None): what omit_default compares with and what a missing key decodes to
             for (fn, al, ft) in own:
                 if ft[0] in ("int", "str") and rng.random() < 0.4:
                     defaults[fn] = ("int", rng.choice([0, 7])) if ft[0] == "int" else ("str", rng.choice(["", "dflt"]))
@@ -438,7 +461,7 @@ def cls_src(sc: Scenario, c: Cls, nm=None) -> str:
         bases.append(nm[c.parent.name] if nm else c.parent.name)
     if c.mixin_here:
         bases.append("DataClassDictMixin")
-    deco = "@dataclass(kw_only=True)" if sc.wide else "@dataclass"
+    deco = "@dataclass(kw_only=True)" if (sc.wide or sc.kw_only) else "@dataclass"
     head = f"{deco}\nclass {nm[c.name] if nm else c.name}" + (f"({', '.join(bases)})" if bases else "") + ":\n"
     body = ""
     for (fn, alias, ft) in c.own_fields:
@@ -485,13 +508,15 @@ def scenario_src(sc: Scenario) -> str:
     if sc.dialect is not None:
         if sc.dialect == "unset":
             s += "class Dl(Dialect):\n    no_copy_collections = (list,)\n" if sc.wide else "class Dl(Dialect):\n    namedtuple_as_dict = False\n"
-            s += (f"    omit_none = {sc.dialect_omit}\n" if sc.dialect_omit is not None else "") + "\n"
+            s += (f"    omit_none = {sc.dialect_omit}\n" if sc.dialect_omit is not None else "")
+            s += (f"    omit_default = {sc.dialect_omit_default}\n" if sc.dialect_omit_default is not None else "") + "\n"
         elif sc.dialect == "strategy":
             s += ("class Dl(Dialect):\n    serialization_strategy = {date: {'serialize': date.toordinal, "
                   "'deserialize': date.fromordinal}}\n\n")
         else:
             s += f"class Dl(Dialect):\n    serialize_by_alias = {sc.dialect}\n"
-            s += (f"    omit_none = {sc.dialect_omit}\n" if sc.dialect_omit is not None else "") + "\n"
+            s += (f"    omit_none = {sc.dialect_omit}\n" if sc.dialect_omit is not None else "")
+            s += (f"    omit_default = {sc.dialect_omit_default}\n" if sc.dialect_omit_default is not None else "") + "\n"
     # library modules: created at exec time under <main module name>_A / _B, so that the source stays self-contained
     for home in ("A", "B"):
         members = [c for c in sc.classes if c.home == home]
@@ -675,18 +700,23 @@ def coq_optb(b) -> str:
     return "None" if b is None or b in ("unset", "strategy") else ("(Some true)" if b else "(Some false)")
 
 
+def coq_bool_(b) -> str:
+    return "true" if b else "false"
+
+
 def coq_opts(sc: Scenario) -> str:
     """the dialect Dl as one option layer of the model"""
     ba = sc.dialect if isinstance(sc.dialect, bool) else None
-    return f"(mkO {coq_optb(ba)} {coq_optb(sc.dialect_omit)})"
+    return f"(mkO {coq_optb(ba)} {coq_optb(sc.dialect_omit)} {coq_optb(sc.dialect_omit_default)})"
 
 
 def scenario_compat(sc: Scenario) -> bool:
     """dialect and Config never contradict each other (then call dialect vs default dialect is invisible)"""
     ba = sc.dialect if isinstance(sc.dialect, bool) else None
-    om = sc.dialect_omit
+    om, od = sc.dialect_omit, sc.dialect_omit_default
     return all((ba is None or c.by_alias is None or c.by_alias == ba) and
-               (om is None or c.omit_none is None or c.omit_none == om) for c in sc.classes)
+               (om is None or c.omit_none is None or c.omit_none == om) and
+               (od is None or c.omit_default is None or c.omit_default == od) for c in sc.classes)
 
 
 def coq_env(sc: Scenario, has=None) -> str:
@@ -696,7 +726,10 @@ def coq_env(sc: Scenario, has=None) -> str:
         fs = "; ".join(f"mkF {coq_str(fn)} {('(Some ' + coq_str(al) + ')') if al else 'None'} {coq_ty(ft)}"
                        for (fn, al, ft) in c.fields)
         par = f"(Some {coq_str(c.parent.name)})" if c.parent else "None"
-        items.append(f"mkC {coq_str(c.name)} {par} [{fs}] {coq_optb(c.by_alias)} {coq_optb(c.omit_none)} {'true' if has[c.name] else 'false'}")
+        items.append(f"mkC {coq_str(c.name)} {par} [{fs}] {coq_optb(c.by_alias)} {coq_optb(c.omit_none)} {coq_optb(c.omit_default)} "
+                     f"[{'; '.join('(' + coq_str(k) + ', ' + coq_val(v) + ')' for k, v in c.all_defaults.items())}] "
+                     f"{coq_bool_(c.cfg_flag('sort_keys'))} {coq_bool_(c.cfg_flag('forbid_extra_keys'))} "
+                     f"{coq_bool_(c.cfg_flag('allow_deserialization_not_by_alias'))} {'true' if has[c.name] else 'false'}")
     return "[" + ";\n   ".join(items) + "]"
 
 
@@ -714,5 +747,7 @@ def coq_res(r) -> str:
         return f"(Err (XInvalid {coq_str(r[2])} {coq_str(r[3])}))"
     if kind == "missing":
         return f"(Err (XMissing {coq_str(r[2])} {coq_str(r[3])}))"
+    if kind == "extra":
+        return f"(Err (XExtra {coq_str(r[3])}))"
     # anything else can never equal a model result (XUnmodelled is never an expectation)
     return "(Err XUnmodelled)"
